@@ -15,7 +15,7 @@ use in_toto::models::byproducts::ByProducts;
 use in_toto::models::inspection::Inspection;
 use in_toto::models::rule::{Artifact, ArtifactRule};
 use in_toto::models::{LinkMetadataBuilder, Metablock, MetablockBuilder, MetadataWrapper};
-use ring::signature::{EcdsaKeyPair, Ed25519KeyPair, RsaKeyPair, ECDSA_P256_SHA256_ASN1_SIGNING, RSA_PSS_SHA256};
+use ring::signature::{EcdsaKeyPair, Ed25519KeyPair, RsaKeyPair, ECDSA_P256_SHA256_ASN1_SIGNING, RSA_PSS_SHA256, RSA_PSS_SHA512};
 use serde_json::{json, Value};
 
 use crate::keys;
@@ -194,6 +194,11 @@ fn check_reference_accepted(acc: &mut Acc, meta: &MetadataWrapper, field: &str, 
         ("rsa-pss-sha256", keys::get("rsa256a"), {
             let mut sig = vec![0; rs.rsa.public().modulus_len()];
             rs.rsa.sign(&RSA_PSS_SHA256, &rng, &reference, &mut sig).unwrap();
+            sig
+        }),
+        ("rsa-pss-sha512", keys::get("rsa512a"), {
+            let mut sig = vec![0; rs.rsa.public().modulus_len()];
+            rs.rsa.sign(&RSA_PSS_SHA512, &rng, &reference, &mut sig).unwrap();
             sig
         }),
     ];
